@@ -8,6 +8,8 @@ sort_with_sign is checked exhaustively over all weak orderings of up to 4 keys.
 """
 from __future__ import annotations
 
+import os
+
 import itertools
 
 import sympy as sp
@@ -59,17 +61,18 @@ def _orders(n_used):
     return list(itertools.permutations(range(n_used)))
 
 
-def _pool(V, order, n=4):
-    """n fresh vector symbols; role i is the symbol whose id() has rank order[i] among the used ones"""
-    syms = [V.VectorSymbol() for _ in range(n)]
+def _pool(V, order, n=4, name=None):
+    """n fresh vector symbols; role i is the symbol whose id() has rank order[i] among the used ones.
+    name: all symbols get this same display name (they are still distinct vectors)"""
+    syms = [V.VectorSymbol(name) if name else V.VectorSymbol() for _ in range(n)]
     by_id = sorted(syms, key=id)
     return by_id
 
 
-def _mk_case(op, tx, ty, tz, mapy, mapz, order, g, full):
+def _mk_case(op, tx, ty, tz, mapy, mapz, order, g, full, name=None):
     V = _V()
     T = dict((n, (ns, nk, b)) for n, ns, nk, b in _templates(True))
-    by_id = _pool(V, order)
+    by_id = _pool(V, order, name=name)
     used = sorted(set(list(range(T[tx][0])) + [mapy[i] for i in range(T[ty][0])] +
                       ([mapz[i] for i in range(T[tz][0])] if tz else [])))
     # role r (r in used) -> symbol with id-rank order[index of r]
@@ -105,7 +108,9 @@ def laws():
 
     def law(name, shapes, fns, backend="auto"):
         def deco(f):
-            out.append(Law(name, shapes, f, functions=[F + x for x in fns], backend=backend, timeout_s=30))
+            # degenerate-point executions cost ~75 s on the 3700 obligations of this property: thorough tier only
+            out.append(Law(name, shapes, f, functions=[F + x for x in fns], backend=backend, timeout_s=30,
+                           degenerate=os.environ.get("VERIF_TIER", "quick") == "thorough"))
             return f
         return deco
 
@@ -196,6 +201,67 @@ def laws():
         got = sem(R, env)[1]
         x, y, z = (_asvec(*sem(e, env)) for e in (X, Y, Z))
         return Case([canon(got - dot3(x, cross3(y, z)))])
+
+
+    # ------------------------------------------------------------------ distinct vectors that share a display name
+    TN = ["a", "k0*a+k1*b", "cross(a,b)"]
+    SN = [sh for sh in S2 if sh[0] in TN and sh[1] in TN]
+
+    @law("same-display-name/dot-and-cross-of-distinct-vectors-named-alike", [(op,) + sh for op in ("dot", "cross") for sh in SN],
+         ["VectorDot.__new__", "VectorCross.__new__", "_ordered_mul", "VectorSymbol._hashable_content"])
+    def _(s, g):
+        op = s[0]
+        V, env, t, X, Y, _ = _mk_case(op, s[1], s[2], None, s[3], None, s[4], g, full, name="r")
+        if op == "dot":
+            got = sem(V.VectorDot(X, Y), env)[1]
+            return Case([canon(got - dot3(_asvec(*sem(X, env)), _asvec(*sem(Y, env))))])
+        got = _asvec(*sem(V.VectorCross(X, Y), env))
+        return Case(_vres(got, cross3(_asvec(*sem(X, env)), _asvec(*sem(Y, env)))))
+
+    @law("same-display-name/mixed-product-of-distinct-vectors-named-alike", [o for o in _orders(3)],
+         ["VectorMixedProduct.__new__", "_ordered_mul", "VectorSymbol._hashable_content"])
+    def _(s, g):
+        V, env, t, X, Y, Z = _mk_case("mixed", "a", "a", "a", (1, 0, 2), (2, 0, 1), s, g, full, name="r")
+        got = sem(V.VectorMixedProduct(X, Y, Z), env)[1]
+        x, y, z = (_asvec(*sem(e, env)) for e in (X, Y, Z))
+        return Case([canon(got - dot3(x, cross3(y, z)))])
+
+    # ------------------------------------------------------------------ scalar-valued vector expressions inside scalar functions:
+    # the assumptions (sign, reality) that the vector scalars declare to SymPy must be true of their values, otherwise
+    # SymPy's own simplifications (abs, sqrt of a square, the |factor| pulled out of a norm) change the value
+    SC_E = ["dot(a,b)", "mixed(a,b,c)", "norm(a)", "dot(a,a)", "dot(a,cross(b,c))", "k0*mixed(a,b,c)"]
+    SC_C = ["abs", "sqrt-of-square", "norm-of-scalar-multiple", "sign-times-abs", "max-with-zero"]
+
+    @law("scalar-context/sympy-simplification-under-declared-assumptions-preserves-value",
+         [(e_, c_, o) for e_ in SC_E for c_ in SC_C for o in _orders(3)],
+         ["VectorDot", "VectorMixedProduct", "VectorNorm", "VectorNorm.__new__", "split_factor"], backend="z3")
+    def _(s, g):
+        e_, c_, o = s
+        V = _V()
+        by_id = _pool(V, o)
+        a, b, c = (by_id[o[i]] for i in range(3))
+        d = by_id[3]
+        env = Env(g)
+        for i, v in enumerate((a, b, c, d)):
+            env.names[v] = f"s{i}"
+        k0 = g.sym("k0")
+        E = {"dot(a,b)": lambda: V.VectorDot(a, b), "mixed(a,b,c)": lambda: V.VectorMixedProduct(a, b, c), "norm(a)": lambda: V.VectorNorm(a),
+             "dot(a,a)": lambda: V.VectorDot(a, a), "dot(a,cross(b,c))": lambda: V.VectorDot(a, V.VectorCross(b, c)),
+             "k0*mixed(a,b,c)": lambda: k0 * V.VectorMixedProduct(a, b, c)}[e_]()
+        ev = sem(E, env)[1]
+        dv = _asvec(*sem(d, env))
+        if c_ == "abs":
+            R, want = sp.Abs(E), sp.Abs(ev)
+        elif c_ == "sqrt-of-square":
+            R, want = sp.sqrt(E**2), sp.Abs(ev)
+        elif c_ == "norm-of-scalar-multiple":
+            R, want = V.VectorNorm(E * d), sp.Abs(ev) * sp.sqrt(dot3(dv, dv))
+        elif c_ == "sign-times-abs":
+            R, want = sp.sign(E) * sp.Abs(E), ev
+        else:
+            R, want = sp.Max(E, 0) - sp.Max(-E, 0), ev
+        got = sem(R, env)[1]
+        return Case([got - want])
 
     # ------------------------------------------------------------------ derivatives: product rule, termination
     DT = ["f(t)", "k(t)*f(t)", "f(t)+k(t)*a", "cross(f(t),g(t))", "a", "dot(f,g)*h"]
